@@ -12,17 +12,29 @@ LEAF_TEXT = {
     "t": ["true", "1 == 1", "!false", "'a' < 'b'",
           # round 2 (append only: corpus cases index into these lists)
           "2u > 1u", "'b' in ['a', 'b']", "[1, 2].size() == 2", "1.5 >= 1.5", "!!true", "'abc'.startsWith('a')",
-          "type(1) == int", "b'a' != b'b'"],
+          "type(1) == int", "b'a' != b'b'",
+          # round 4 (append only): the operand is a member suffix (`.f`, `.a.b`, `[i]`, `.method()`) applied to a
+          # parenthesised ?: / || / && or to a macro result, or has such an expression as its tail -- the transpiler
+          # treats these "deferred" sub-expressions specially (own lambda, result()), so an operand that merely BEGINS or
+          # ENDS with one is the boundary of every rule that recognises them by their text
+          "(true ? {'f': true} : {'f': false}).f", "(false || 2 > 1 ? {'a': {'b': true}} : {}).a.b",
+          "[{'f': true}].map(x, x)[0].f", "(1 < 2 && true ? 'ab' : 'c').startsWith('a')", "[[true]].filter(x, true)[0][0]",
+          "{'k': [1].exists(x, x == 1)}.k", "(false || true ? [true] : [false])[0]"],
     "f": ["false", "1 == 2", "!true", "2 < 1",
           "2u < 1u", "'c' in ['a', 'b']", "size('ab') == 3", "1.5 > 2.5", "!!false", "'abc'.endsWith('a')",
-          "null != null", "1 in []"],
+          "null != null", "1 in []",
+          "(true ? {'f': false} : {'f': true}).f", "(1 > 2 || false ? {} : {'a': {'b': false}}).a.b",
+          "[{'f': false}].map(x, x)[0].f", "(false ? 'ab' : 'c').startsWith('a')", "[[false]].filter(x, true)[0][0]",
+          "{'k': [1].all(x, x == 2)}.k", "(true && 2 > 1 ? [false] : [true])[0]"],
     "e": ["1/0 > 0", "[1][5] == 1", "{}.a", "nosuch", "'a' < 1", "int('x') == 1",
           "9223372036854775807 + 1 > 0", "{'a': 1}['b'] == 1", "1 % 0 == 0", "-(-9223372036854775807 - 1) > 0",
           "size(1) > 0", "'a'.startsWith(1)", "timestamp('x') == timestamp('x')", "duration('x') == duration('x')",
           "[1, 2][-1] == 1", "{'a': 1}.b == 1", "dyn(1) + 'a' == 'a'", "uint(-1) == 1u", "1u - 2u == 0u",
           "int(1e99) == 1", "1.0 / 0 > 0.0", "'x' in 1", "1 in [1/0]", "!1", "-true", "bool('maybe')",
           "18446744073709551615u + 1u > 0u", "double('x') > 0.0", "bytes(1) == b''", "{1: 2}[3] == 2",
-          "[1].map(x, 1/0)[0] == 1", "x.y.z", "size([1], 2) == 1", "nosuch(1)", "5 % 0 == 1"],
+          "[1].map(x, 1/0)[0] == 1", "x.y.z", "size([1], 2) == 1", "nosuch(1)", "5 % 0 == 1",
+          "(true ? {'f': true} : {'f': false}).g", "(true ? {} : {'f': true}).f", "(false || true ? [true] : [true])[1]",
+          "[{'f': true}].map(x, x)[0].g", "[{'f': true}].filter(x, false)[0].f", "(true ? {'k': 1/0 > 0} : {}).k"],
 }
 # binding strength of a leaf text in cel.lark (for the rendering with as few parentheses as the grammar allows):
 # 3 relation, 6 unary, 7 member, 8 primary
@@ -61,10 +73,14 @@ VT = [("1", "int:1"), ("'s'", 'string:"s"'), ("2u", "uint:2"),
       ("int", "type:IntType"), ("type('a')", "type:StringType"), ("list", "type:ListType"), ("type(null)", "type:NoneType"),
       ("type(type(1))", "type:TypeType"), ("map", "type:MapType"), ("bool", "type:BoolType"), ("type(1.5)", "type:DoubleType"),
       ("timestamp('2020-01-02T03:04:05Z')", "timestamp:2020-01-02T03:04:05.000000Z"), ("duration('1s')", "duration:1000000"),
-      ("[int, type('a')]", "list:[type:IntType,type:StringType]"), ("{'t': timestamp}", 'map:{string:"t"=>type:TimestampType}')]
+      ("[int, type('a')]", "list:[type:IntType,type:StringType]"), ("{'t': timestamp}", 'map:{string:"t"=>type:TimestampType}'),
+      # round 4 (append only): a member suffix on a deferred expression (see LEAF_TEXT)
+      ("(true ? {'n': 7} : {'n': 8}).n", "int:7"), ("[{'s': 'x'}].map(x, x)[0].s", 'string:"x"'),
+      ("(false || true ? [[1], [2u]] : [])[1][0]", "uint:2")]
 VF = [("0", "int:0"), ("''", 'string:""'), ("[]", "list:[]"),
       ("null", "null"), ("0.0", "double:0"), ("0u", "uint:0"), ("{}", "map:{}"), ("b''", "bytes:"),
-      ("duration('0s')", "duration:0")]       # round 3: timedelta(0) is falsy
+      ("duration('0s')", "duration:0"),       # round 3: timedelta(0) is falsy
+      ("(false ? {} : {'n': 0}).n", "int:0"), ("[{'s': ''}].filter(x, true)[0].s", 'string:""')]     # round 4
 N_VT_R2 = 10                                   # VT[N_VT_R2:] are the round-3 kinds
 
 
@@ -145,6 +161,9 @@ BRANCH_TEXT = [
     "1 == 1 ? int : string", "(false ? 1 : list)",
     # the value of a function name
     "size", "matches", "getDate",
+    # round 4: member suffix on a deferred expression
+    "(true ? {'n': 1} : {'n': 2}).n", "[{'v': 'a'}].map(x, x)[0].v", "(false || true ? [[1], [2]] : [])[1][0]",
+    "([1].exists(x, x == 1) ? {'a': {'b': [int]}} : {}).a.b",
 ]
 
 
@@ -174,17 +193,52 @@ def to_cel(t: Any, vt: str, vf: str, style: str = "full") -> str:
 DIV_ELEM = {"t": "1", "f": "-1", "e": "0"}     # 1/x > 0 for x = 1 | -1 | 0
 
 
+# round 4, "+mixA".."+mixD": all/exists over a list of element values of MIXED type with a predicate that tells them
+# apart.  The pools hold, across the classes, CEL values that are different for CEL (and for the predicate) but that
+# Python's ==/hash identify: 0.0 / -0.0 / 0 / 0u / false, 1.0 / 1 / 1u / true, -1.0 / -1 -- what a memo, a set, a
+# dict.fromkeys or an `in` over the elements confuses (identity vs. equality).  (pred, {class: [element texts]});
+# the element of a leaf ("lit", cls, j) is pool[cls][j % len].
+MIX = {      # even index: a zero-like element, odd index: a one-like element (so that equal-for-Python pairs are frequent)
+    "A": ("1.0 / x > 0.0", {"t": ["0.0", "1.0", "0.0", "2.5"], "f": ["-0.0", "-1.0"], "e": ["0", "1", "0u", "1u", "0", "-1"]}),
+    "B": ("x ? true : false", {"t": ["true"], "f": ["false"], "e": ["0", "1", "0u", "1u", "0.0", "1.0", "-0.0", "1"]}),
+    "C": ("!x", {"t": ["false"], "f": ["true"], "e": ["0", "1", "0u", "1u", "0.0", "1.0", "-0.0", "1"]}),
+    "D": ("type(x) == int ? true : type(x) == uint ? false : 1/0 > 0",
+          {"t": ["0", "1", "0", "-1"], "f": ["0u", "1u"], "e": ["0.0", "1.0", "false", "true", "-0.0", "-1.0"]}),
+}
+
+
 def _div_macro(t: Any, style: str) -> Optional[str]:
     xs = t[1]
+    i = style.find("+mix")
+    if i >= 0 and xs and all(x[0] == "lit" and x[1] in DIV_ELEM for x in xs):
+        pred, pool = MIX[style[i + 4]]
+        name = "all" if t[0] == "all" else "exists"
+        return f"[{', '.join(pool[x[1]][x[2] % len(pool[x[1]])] for x in xs)}].{name}(x, {pred})"
     if "+div" in style and xs and all(x[0] == "lit" and x[1] in DIV_ELEM for x in xs):
         name = "all" if t[0] == "all" else "exists"
         return f"[{', '.join(DIV_ELEM[x[1]] for x in xs)}].{name}(x, 1/x > 0)"
     return None
 
 
+# round 4, "+wrap": every operand that is itself an && / || / ?: / macro node is wrapped in an expression that hands its
+# outcome through unchanged for all five classes (a value comes back as it is, an error stays an error): a field selected
+# from a conditional / from a map literal that holds it, an index into a list literal that holds it.  The operand of the
+# enclosing operator is then a MEMBER expression that begins with / contains a deferred expression.
+WRAPS = ["(true ? {{'k': {0}}} : {{}}).k", "[{0}][0]", "{{'k': {0}}}.k", "(false ? [] : [[{0}]])[0][0]"]
+
+
+def _wrap(u: Any, s: str, style: str) -> Optional[str]:
+    if "+wrap" in style and u[0] not in ("lit", "var", "not"):
+        return WRAPS[(size_of(u) + len(s)) % len(WRAPS)].format(s)
+    return None
+
+
 def _to_cel_full(t: Any, vt: str, vf: str, style: str = "full") -> str:
     k = t[0]
-    rec = lambda u, a=vt, b=vf: _to_cel_full(u, a, b, style)
+
+    def rec(u, a=vt, b=vf):
+        s = _to_cel_full(u, a, b, style)
+        return _wrap(u, s, style) or s
     if k == "lit":
         if t[1] == "vt":
             return vt
@@ -223,6 +277,9 @@ def _to_cel_full(t: Any, vt: str, vf: str, style: str = "full") -> str:
 def _render(t: Any, vt: str, vf: str, style: str):
     def need(u, lvl, a=vt, b=vf):
         s, l = _render(u, a, b, style)
+        w = _wrap(u, s, style)
+        if w:
+            return w                 # a member expression (level 7)
         return s if l >= lvl else f"({s})"
     k = t[0]
     if k == "lit":
@@ -358,7 +415,7 @@ def branch_src(c: Dict[str, Any]):
 
 
 def size_of(t) -> int:
-    if t[0] == "lit":
+    if t[0] in ("lit", "var"):
         return 1
     if t[0] in ("all", "exists"):
         return 1 + sum(size_of(x) for x in t[1])
@@ -431,7 +488,7 @@ class C02(Prop):
             vi, fi = rng.randrange(len(VT)), rng.randrange(len(VF))
             if has_macro(t):
                 vi, fi = 0, 0     # a non-boolean body value may leak out of the interpreter's fold: keep it an int
-            style = rng.choice([None, "min", "min+div", "full+div"])
+            style = rng.choice([None, "min", "min+div", "full+div", "min+wrap", "full+wrap+div", "min+mix" + rng.choice("ABCD")])
             both(t, vi, fi, style)
         if not quick:
             leaves = [("lit", c, 0) for c in ("t", "f", "e")]
@@ -514,6 +571,25 @@ class C02(Prop):
             for m in range(1, 4):
                 for xs in itertools.product("tfe", repeat=m):
                     both((k, [("lit", x, 0) for x in xs]), 0, 0, "min+div")
+        # --- round 4: lists of MIXED element types whose members are equal for Python but not for CEL (see MIX): every list of
+        #     length <= 2 for every family, every list of length 3 with a random family; the element realisations are random
+        for k in ("all", "exists"):
+            for m in range(1, 4):
+                for xs in itertools.product("tfe", repeat=m):
+                    for fam in ("ABCD" if m < 3 else rng.choice("ABCD") + rng.choice("ABCD")):
+                        g = rng.randrange(2)          # mostly one group: zero-like or one-like elements
+                        t = (k, [("lit", x, g + 2 * rng.randrange(6) if rng.random() < 0.8 else rng.randrange(12)) for x in xs])
+                        if m == 3 and rng.random() < 0.3:
+                            t = rng.choice([("or", t, leaf("f")), ("and", t, leaf("t")), ("cond", t, leaf("t"), leaf("f")), ("not", t)])
+                        both(t, 0, 0, "min+mix" + fam)
+        # --- round 4: operands wrapped in outcome-preserving member expressions (see WRAPS): small trees whose operands are
+        #     themselves operators / conditionals / macros
+        for i in range(80 if quick else 2000):
+            t = gen_tree(rng, rng.randint(3, 6), 0.15)
+            if has_macro(t):
+                both(t, 0, 0, rng.choice(["min+wrap", "full+wrap", "min+wrap+div"]))
+            else:
+                both(t, rng.randrange(len(VT)), rng.randrange(len(VF)), rng.choice(["min+wrap", "full+wrap"]))
         # --- one compiled program, a sequence of activations (operands are variables; absent variable = error) ---
         for i in range(40 if quick else 600):
             nv = rng.randint(2, 4)
